@@ -69,7 +69,11 @@ RULE = ("histories of ask/tell (tell_dqd first for the arborescence emitter) on 
         "and as NumPy integers (int8, uint8, int16, int32, int64, uint64) with histories running past the range "
         "of the narrow types (>= 130 tells for int8, >= 260 for uint8, >= 32770 for int16 in the thorough tier), "
         "the arborescence emitter with a spy gradient optimizer that really moves and with the stock "
-        "gradient_ascent / adam optimizers (solution point read through ask_dqd() after every restart), and "
+        "gradient_ascent / adam optimizers (solution point read through ask_dqd() after every restart), "
+        "EvolutionStrategyEmitter built with bounds= (box, upper-only, lower-only, window, per-dimension mixed with "
+        "None entries) over archives that also hold elites outside those bounds (added directly before and "
+        "between tells, solutions of either sign; the point handed to opt.reset must be bit-identical to an "
+        "elite's solution for restarts by integer rule, no_improvement and stop signal), and "
         "rejected calls; a case is "
         "non-trivial when it contains at least one tell that must restart and one that must not (rejections "
         "stratum: at least one rejected call), counted once per distinct op list")
@@ -202,8 +206,22 @@ def spy_classes():
 # tokens
 
 
-def elite_sol(tok, dim, dtype):
-    return np.array([tok + 0.5] + [3.0 * tok + j for j in range(1, dim)], dtype=dtype)
+def elite_sol(tok, dim, dtype, neg=False):
+    """solution of the elite with token `tok`: pairwise distinct coordinates; `neg` mirrors it through the origin
+    (so that elites lie on either side of an emitter's bounds)"""
+    v = np.array([tok + 0.5] + [3.0 * tok + j for j in range(1, dim)], dtype=dtype)
+    return -v if neg else v
+
+
+def x0_of(dim):
+    """initial solution of the emitters: pairwise distinct coordinates, no elite's solution"""
+    return np.array([X0 - 0.25 * j for j in range(dim)])
+
+
+def same_bits(a, b):
+    """bit-identical arrays (shape, dtype and every byte; distinguishes -0.0 from 0.0)"""
+    a, b = np.asarray(a), np.asarray(b)
+    return a.shape == b.shape and a.dtype == b.dtype and a.tobytes() == b.tobytes()
 
 
 def decode_elite(x, dim, dtype):
@@ -211,11 +229,12 @@ def decode_elite(x, dim, dtype):
     x = np.asarray(x)
     if x.shape != (dim,):
         return None
-    t = x[0] - 0.5
+    neg = bool(x[0] < 0)
+    t = abs(x[0]) - 0.5
     if not np.isfinite(t) or t != int(t) or t < 1:
         return None
     t = int(t)
-    return t if np.array_equal(x, elite_sol(t, dim, dtype)) else None
+    return t if np.array_equal(x, elite_sol(t, dim, dtype, neg)) else None
 
 
 def val_strs(arr):
@@ -370,8 +389,11 @@ def gen_history(rng, kind, sel, rule, bs, n_iters, p_stop=0.15, modes=("random",
         return tok[0]
 
     def add():
-        return {"op": "add", "tok": fresh(), "cell": [rng.randrange(3), rng.randrange(3)],
-                "obj": rng.randint(0, 9)}
+        o = {"op": "add", "tok": fresh(), "cell": [rng.randrange(3), rng.randrange(3)],
+             "obj": rng.randint(0, 9)}
+        if rng.random() < 0.3:
+            o["neg"] = True  # solution mirrored through the origin
+        return o
 
     ops = [add() for _ in range(rng.randint(1, 3))]
     if kind == "gae":
@@ -398,10 +420,44 @@ def gen_history(rng, kind, sel, rule, bs, n_iters, p_stop=0.15, modes=("random",
     }
 
 
+BOUND_LAYOUTS = ["box", "upper", "lower", "window", "perdim"]
+
+
+def gen_bounds(rng, dim, layout=None):
+    """solution-space bounds of the emitter (`bounds=`; None = no bound on that side / that dimension), placed so
+    that elite solutions (coordinates of magnitude 1.5 .. ~100, either sign) lie inside as well as outside"""
+    layout = layout or rng.choice(BOUND_LAYOUTS)
+    if layout == "box":
+        b = float(rng.choice([1, 4, 10, 25]))
+        return [[-b, b] for _ in range(dim)]
+    if layout == "upper":
+        return [[None, float(rng.choice([-3, 0, 2, 5, 12]))] for _ in range(dim)]
+    if layout == "lower":
+        return [[float(rng.choice([-12, -2, 0, 3, 7])), None] for _ in range(dim)]
+    if layout == "window":
+        lo = float(rng.choice([-6, 2, 3]))
+        return [[lo, lo + float(rng.choice([3, 6, 20]))] for _ in range(dim)]
+    out = []
+    for _ in range(dim):
+        r = rng.random()
+        lo, hi = float(rng.choice([-8, -1, 2, 4])), float(rng.choice([5, 9, 30]))
+        out.append(None if r < 0.25 else [None, hi] if r < 0.5 else [lo, None] if r < 0.75 else [lo, hi])
+    if all(x is None for x in out):
+        out[rng.randrange(dim)] = [None, 3.0]
+    return out
+
+
+def with_bounds(rng, case, p):
+    """EvolutionStrategyEmitter only (the arborescence emitter rejects bounds)"""
+    if case["kind"] == "es" and rng.random() < p:
+        case["bounds"] = gen_bounds(rng, case["dim"])
+    return case
+
+
 def make_gen_histories(kind, max_iters):
     def gen(rng):
-        return gen_history(rng, kind, rng.choice(SELS), rng.choice(RULES), rng.randint(1, 8),
-                           rng.randint(1, max_iters))
+        return with_bounds(rng, gen_history(rng, kind, rng.choice(SELS), rng.choice(RULES), rng.randint(1, 8),
+                           rng.randint(1, max_iters)), 0.3)
     return gen
 
 
@@ -415,7 +471,7 @@ def make_gen_sweep(max_iters, systematic):
         kind, sel, rule, bs = combos[counter[0] % len(combos) if systematic else rng.randrange(len(combos))]
         counter[0] += 1
         n = 2 * rule + 1 + rng.randint(0, 2) if isinstance(rule, int) else rng.randint(3, 8)
-        return gen_history(rng, kind, sel, rule, bs, min(n, max_iters), p_stop=0.05)
+        return with_bounds(rng, gen_history(rng, kind, sel, rule, bs, min(n, max_iters), p_stop=0.05), 0.3)
     return gen
 
 
@@ -424,16 +480,30 @@ def make_gen_blocks(max_iters):
         rule = rng.choice(["no_improvement"] * 4 + RULES)
         sel = rng.choice(SELS)
         bs = rng.choice([1, 1, 2, 3, 4, 5, 8]) if sel == "mu" else rng.randint(1, 8)
-        return gen_history(rng, rng.choice(["es", "gae"]), sel, rule, bs, rng.randint(3, max_iters),
-                           p_stop=0.05, modes=("all", "some", "none"), block=True)
+        return with_bounds(rng, gen_history(rng, rng.choice(["es", "gae"]), sel, rule, bs, rng.randint(3, max_iters),
+                           p_stop=0.05, modes=("all", "some", "none"), block=True), 0.3)
     return gen
 
 
 def make_gen_stops(max_iters):
     def gen(rng):
         rule = rng.choice(["basic"] * 3 + RULES)
-        return gen_history(rng, rng.choice(["es", "gae"]), rng.choice(SELS), rule, rng.randint(1, 8),
-                           rng.randint(2, max_iters), p_stop=rng.choice([0.3, 0.5, 0.9]))
+        return with_bounds(rng, gen_history(rng, rng.choice(["es", "gae"]), rng.choice(SELS), rule, rng.randint(1, 8),
+                           rng.randint(2, max_iters), p_stop=rng.choice([0.3, 0.5, 0.9])), 0.3)
+    return gen
+
+
+def make_gen_bounded(max_iters):
+    """EvolutionStrategyEmitter built with solution-space bounds (every layout: box, one-sided, window,
+    per-dimension) over an archive that also holds elites outside those bounds (added directly, before and
+    between the tells; solutions of either sign), restarts by every cause"""
+    def gen(rng):
+        rule = rng.choice(["basic", "no_improvement", "no_improvement", 1, 2, 3, 5])
+        case = gen_history(rng, "es", rng.choice(SELS), rule, rng.randint(1, 6), rng.randint(3, max_iters),
+                           p_stop=0.3 if rule == "basic" else 0.15, churn=0.5)
+        case["dim"] = rng.randint(1, 4)
+        case["bounds"] = gen_bounds(rng, case["dim"], rng.choice(BOUND_LAYOUTS))
+        return case
     return gen
 
 
@@ -551,7 +621,9 @@ def run_case(case):
         return made["go"]
 
     # ---- construction ---------------------------------------------------
-    x0 = np.full(dim, X0)
+    x0 = x0_of(dim)
+    bounds = case.get("bounds")
+    bounds_arg = None if bounds is None else [None if b is None else (b[0], b[1]) for b in bounds]
     err = None
     rule_arg = rule
     if case.get("rule_np") and isinstance(rule, int):
@@ -561,7 +633,7 @@ def run_case(case):
     try:
         if kind == "es":
             em = EvolutionStrategyEmitter(arch, x0=x0, sigma0=1.0, ranker=mk_rk, es=mk_es, selection_rule=sel,
-                                          restart_rule=rule_arg, batch_size=bs, seed=1)
+                                          restart_rule=rule_arg, bounds=bounds_arg, batch_size=bs, seed=1)
         else:
             em = GradientArborescenceEmitter(arch, x0=x0, sigma0=1.0, lr=0.5, ranker=mk_rk, es=mk_es,
                                              grad_opt=mk_go if spy_go else gopt, selection_rule=sel,
@@ -576,6 +648,10 @@ def run_case(case):
         stat("integer-rule-as:" + (case.get("rule_np") or "int"))
     if kind == "gae" and err is None:
         stat("grad-opt:" + gopt)
+    if bounds is not None and err is None:
+        sides = {(b is not None and b[0] is not None, b is not None and b[1] is not None) for b in bounds}
+        stat("bounds:" + ("two-sided" if sides == {(True, True)} else "upper-only" if sides == {(False, True)}
+                          else "lower-only" if sides == {(True, False)} else "per-dimension-mixed"))
     if valid_cfg and err is not None:
         return Failure("oracle", f"construct: valid configuration sel={sel!r} rule={rule!r} rejected ({err})")
     # rejection of an invalid configuration: compared as accepted / rejected only
@@ -625,7 +701,7 @@ def run_case(case):
         o = op["op"]
         where = f"op#{step} {o}"
         if o == "add":
-            arch.add_single(elite_sol(op["tok"], dim, dtype), float(op["obj"]),
+            arch.add_single(elite_sol(op["tok"], dim, dtype, bool(op.get("neg"))), float(op["obj"]),
                             [op["cell"][0] + 0.5, op["cell"][1] + 0.5])
             continue
         if o == "clear":
@@ -780,14 +856,25 @@ def run_case(case):
                 else:
                     # the emitter's solution point after the tell (public: ask_dqd())
                     centre = np.array(em.ask_dqd()[0], copy=True)
-                    if spy_go and not (gresets[0][1].shape == centre.shape and np.array_equal(gresets[0][1], centre)):
+                    if spy_go and not same_bits(gresets[0][1], centre):
                         return Failure("oracle", f"{where}: gradient optimizer re-centred on {gresets[0][1].tolist()} "
                                                  f"but after the tell the solution point ask_dqd() is "
                                                  f"{centre.tolist()} (calls {names})")
-                if not any(c.shape == centre.shape and np.array_equal(c, centre) for c in a_sols):
-                    return Failure("oracle", f"{where}: after the restart the emitter is centred on {centre.tolist()}, "
-                                             f"not the solution of an elite currently in the archive "
-                                             f"{a_sols.tolist()} (calls {names})")
+                # bit-identical (shape, dtype, every byte) to the solution of some elite of the archive as it is now
+                if not any(same_bits(c, centre) for c in a_sols):
+                    return Failure("oracle", f"{where}: after the restart the emitter is centred on {centre.tolist()} "
+                                             f"({centre.dtype}), not (bit for bit) the solution of an elite currently "
+                                             f"in the archive {a_sols.tolist()} ({a_sols.dtype}); emitter bounds="
+                                             f"{bounds}; restart cause: {'stop signal' if stop else ''}"
+                                             f"{' + ' if stop and fires else ''}{'rule ' + str(rule) if fires else ''} "
+                                             f"(calls {names})")
+                if bounds is not None:
+                    lo = np.array([-np.inf if b is None or b[0] is None else b[0] for b in bounds])
+                    hi = np.array([np.inf if b is None or b[1] is None else b[1] for b in bounds])
+                    inside = bool(np.all((centre >= lo) & (centre <= hi)))
+                    stat("restart-under-bounds:elite-" + ("inside" if inside else "outside") + ":"
+                         + ("stop" if stop and not fires else "rule-" + ("N" if isinstance(rule, int) else str(rule))
+                            if fires and not stop else "stop+rule"))
                 if kind == "gae" and not (oresets[0][1].shape == (NCOEF,) and not np.any(oresets[0][1])):
                     return Failure("oracle", f"{where}: coefficient distribution reset to {oresets[0][1].tolist()}, "
                                              f"expected zeros({NCOEF})")
@@ -865,6 +952,8 @@ def run(ctx):
     ctx.explore("feedback-blocks", make_gen_blocks(mi), run_case, ctx.n(160, 4000),
                 nontrivial=nontrivial, time_budget=tb(5))
     ctx.explore("stop-signals", make_gen_stops(mi), run_case, ctx.n(120, 3000),
+                nontrivial=nontrivial, time_budget=tb(4))
+    ctx.explore("bounded-emitter", make_gen_bounded(mi), run_case, ctx.n(140, 3000),
                 nontrivial=nontrivial, time_budget=tb(4))
     ctx.explore("numpy-int-rules", make_gen_npint(not ctx.quick), run_case, ctx.n(48, 600),
                 nontrivial=nontrivial, time_budget=tb(8))
